@@ -17,6 +17,9 @@ import (
 type SchedTaskSpec struct {
 	Cfg  CfgSpec
 	Cmds []Cmd
+	// Custom: this VM's embedding program registers the custom dice syntax XX<digits> (every VM that
+	// has it registers the byte-identical pattern, each with a handler of its own)
+	Custom bool `json:",omitempty"`
 }
 
 type C11Scenario struct {
@@ -55,6 +58,7 @@ func c11GenMode(mode string) func(seed uint64, tier string) any {
 		nt := r.Range(2, 4)
 		// one default-sides text per scenario: VMs with different flags often configure the same text
 		sharedSide := Pick(r, []string{"20", "6", "f + 10", "b1", "2 | 5", "3a9 + 4", "面数 ?? 6", "3|4", "p1 + 2", "(20 + 1", "[6,", "力量 +\n (", "10 +"})
+		customScenario := r.Chance(1, 4)
 		for t := 0; t < nt; t++ {
 			cfg := GenCfg(r)
 			cfg.Lang = r.Intn(3)
@@ -86,7 +90,7 @@ func c11GenMode(mode string) func(seed uint64, tier string) any {
 			}
 			o.DictMulti = true
 			g := NewProgGen(r.Fork(), o)
-			ts := SchedTaskSpec{Cfg: cfg}
+			ts := SchedTaskSpec{Cfg: cfg, Custom: customScenario && r.Chance(3, 4)}
 			nc := r.Range(2, 5)
 			brokenBodies := r.Chance(1, 4)
 			if brokenBodies {
@@ -120,6 +124,10 @@ func c11GenMode(mode string) func(seed uint64, tier string) any {
 					})
 				default:
 					src = g.Program(r.Range(1, 3))
+				}
+				if ts.Custom && r.Chance(1, 2) {
+					n1, n2 := r.Range(0, 99), r.Range(100, 9999)
+					src = Pick(r, []string{fmt.Sprintf("XX%d + 1", n1), fmt.Sprintf("XX%d * 2 + XX%d", n2, n1), fmt.Sprintf("func cx() { return XX%d }; cx() + XX%d", n1, n2), fmt.Sprintf("XX%d + (", n2), fmt.Sprintf("`{XX%d}-{XX%d}`", n1, n2)})
 				}
 				ts.Cmds = append(ts.Cmds, Cmd{Kind: "run", Src: src})
 				if cfg.DefaultSide != "" && r.Chance(1, 2) {
@@ -257,8 +265,11 @@ func errorGeometryOK(text, input string) (bool, string) {
 	return true, ""
 }
 
-func runScript(cfg CfgSpec, cmds []Cmd) []*Outcome {
+func runScript(cfg CfgSpec, cmds []Cmd, custom bool) []*Outcome {
 	vm := cfg.NewVM()
+	if custom {
+		NewHost(HostSpec{Custom: true, CustomTok: "XX", HandlerPlan: "vvvvvvvvvvvvvvvvvvvvvvvv"}, nil).Install(vm)
+	}
 	var out []*Outcome
 	for _, c := range cmds {
 		out = append(out, DoCmd(vm, c))
@@ -281,7 +292,7 @@ func c11Exec(raw json.RawMessage, res *RunResult) {
 	alone := make([][]*Outcome, n)
 	for i, t := range sc.Tasks {
 		ResetGlobals(sc.GlobalSeed)
-		alone[i] = runScript(t.Cfg, t.Cmds)
+		alone[i] = runScript(t.Cfg, t.Cmds, t.Custom)
 		res.Evals += len(t.Cmds)
 		if t.Cfg.ParseLimit > 0 {
 			res.Fault("parse_budget_configured")
@@ -301,7 +312,7 @@ func c11Exec(raw json.RawMessage, res *RunResult) {
 	for i := range sc.Tasks {
 		i := i
 		t := sc.Tasks[i]
-		fns[i] = func() { together[i] = runScript(t.Cfg, t.Cmds) }
+		fns[i] = func() { together[i] = runScript(t.Cfg, t.Cmds, t.Custom) }
 	}
 	ok := s.Run(fns)
 	if !ok {
